@@ -238,6 +238,17 @@ CheckGlide(m, e) ==
   ELSE IF e.dl > m.cfg.tol \/ e.dr > m.cfg.tol THEN "invariant_under_rigid_motion"
   ELSE ""
 
+\* ------------------------------------------------------------------ a listener and its track created between two drains
+\* kind = "pickup" (PickUpOrder.tla, edge mixer -> listeners): pk: for each of four callbacks, ran[j] = the sound on the new
+\* spatial track was processed, loud[j] = the callback's output was not silent.  The listener exists, so the track is heard
+\* whenever it runs.
+CheckPickup(m, e) ==
+  IF e.a # "pk" THEN ""
+  ELSE IF e.p THEN "no_panic"
+  ELSE IF \E j \in 1..Len(e.ran) : e.ran[j] /\ ~e.loud[j] THEN "spatial_track_finds_its_listener_from_its_first_callback"
+  ELSE IF ~e.ran[Len(e.ran)] THEN "harness_pickup_never_ran"
+  ELSE ""
+
 \* ------------------------------------------------------------------ both
 PInit(c) == IF c.kind = "life" THEN PInitLife(c)
             ELSE IF c.kind = "geo" THEN PInitGeo(c)
@@ -245,7 +256,8 @@ PInit(c) == IF c.kind = "life" THEN PInitLife(c)
 Check(m, e) == IF m.kind = "life" THEN CheckLife(m, e)
                ELSE IF m.kind = "geo" THEN CheckGeo(m, e)
                ELSE IF m.kind = "none" /\ m.cfg.kind = "vmap" THEN CheckVm(m, e)
-               ELSE IF m.kind = "none" /\ m.cfg.kind = "glide" THEN CheckGlide(m, e) ELSE ""
+               ELSE IF m.kind = "none" /\ m.cfg.kind = "glide" THEN CheckGlide(m, e)
+               ELSE IF m.kind = "none" /\ m.cfg.kind = "pickup" THEN CheckPickup(m, e) ELSE ""
 Upd(m, e) == IF m.kind = "life" THEN UpdLife(m, e)
              ELSE IF m.kind = "geo" THEN UpdGeo(m, e) ELSE m
 =============================================================================
